@@ -21,6 +21,7 @@ type Env struct {
 	depth  int
 	inOld  bool
 	quants []*patCollector
+	assumeSide bool // the formula being translated will be assumed, not proved: derived frame facts may be added
 }
 
 // patCollector gathers candidate trigger terms for one quantifier: element accesses whose index is a bound variable.
@@ -76,6 +77,20 @@ func (x *Exec) inSlice(heapName string, heap string, s string, v string, elemSor
 			hs, elemSort, f, wit, wit, x.elemAt(heapName, "h", "s", wit, elemSort), f))
 	}
 	return app(f, heap, s, v)
+}
+
+// sliceFrame: if the array of a slice is the same in two versions of an element heap then so are its elements and its
+// membership facts. cond is the condition on (s.arr s) under which the array is known to be unchanged.
+func (x *Exec) sliceFrame(heapName, h0, h1, cond string) string {
+	hs := x.varSort(heapName)
+	es := hs[len("(Array Int (Array Int ") : len(hs)-2]
+	a1, a0 := x.elemAt(heapName, h1, "s", "i", es), x.elemAt(heapName, h0, "s", "i", es)
+	out := fmt.Sprintf("(forall ((s Slice) (i Int)) (! (=> %s (= %s %s)) :pattern (%s) :pattern (%s)))", cond, a1, a0, a1, a0)
+	if _, ok := x.vc.funs["uf_in_"+mangle(es)]; ok {
+		i1, i0 := x.inSlice(heapName, h1, "s", "v", es, false), x.inSlice(heapName, h0, "s", "v", es, false)
+		out = mkAnd(out, fmt.Sprintf("(forall ((s Slice) (v %s)) (! (=> %s (= %s %s)) :pattern (%s) :pattern (%s)))", es, cond, i1, i0, i1, i0))
+	}
+	return out
 }
 
 func (e *Env) withBound(name string, t Term) *Env {
@@ -912,6 +927,49 @@ func (x *Exec) trCall(e *Expr, env *Env) (Term, error) {
 				return tBool(app("select", args[0].S, args[1].S)), nil
 			}
 			return Term{S: app("store", args[0].S, args[1].S, "true"), Sort: args[0].Sort}, nil
+		case "appendsOnly":
+			// appendsOnly(s): every array cell that existed in the old state is unchanged, except cells of s's own array
+			// beyond its length (the spare capacity an in-place append writes to)
+			args, err := trArgs()
+			if err != nil {
+				return Term{}, err
+			}
+			if len(args) != 1 || args[0].Sort != SSlice || args[0].T == nil {
+				return Term{}, fmt.Errorf("appendsOnly(s) needs one slice")
+			}
+			sl, ok := types.Unalias(args[0].T).Underlying().(*types.Slice)
+			if !ok {
+				return Term{}, fmt.Errorf("appendsOnly(s) needs one slice")
+			}
+			hname := x.heapElem(sl.Elem())
+			h1, h0 := x.get(env.cur, hname).S, x.get(env.old, hname).S
+			if h1 == h0 {
+				return tTrue(), nil
+			}
+			if _, ok := x.vc.heapSort[allocVar]; !ok {
+				x.vc.heapSort[allocVar] = SInt
+			}
+			a0 := x.get(env.old, allocVar).S
+			d := args[0].S
+			end := app("+", app("s.off", d), app("s.len", d))
+			safe := func(arr, cell string) string {
+				return mkOr(mkNot(mkEq(arr, app("s.arr", d))), mkEq(app("s.cap", d), "0"), app("<", cell, end))
+			}
+			frame := fmt.Sprintf("(forall ((r Int) (k Int)) (! (=> (and (< r %s) %s) (= (select (select %s r) k) (select (select %s r) k))) :pattern ((select (select %s r) k))))",
+				a0, safe("r", "k"), h1, h0, h1)
+			if env.assumeSide && simpleConst(h1) && simpleConst(h0) {
+				hs := x.varSort(hname)
+				es := hs[len("(Array Int (Array Int ") : len(hs)-2]
+				a1, ao := x.elemAt(hname, h1, "s", "i", es), x.elemAt(hname, h0, "s", "i", es)
+				frame = mkAnd(frame, fmt.Sprintf("(forall ((s Slice) (i Int)) (! (=> (and (< (s.arr s) %s) %s) (= %s %s)) :pattern (%s) :pattern (%s)))",
+					a0, safe("(s.arr s)", "(+ (s.off s) i)"), a1, ao, a1, ao))
+				if _, ok := x.vc.funs["uf_in_"+mangle(es)]; ok {
+					i1, i0 := x.inSlice(hname, h1, "s", "v", es, false), x.inSlice(hname, h0, "s", "v", es, false)
+					frame = mkAnd(frame, fmt.Sprintf("(forall ((s Slice) (v %s)) (! (=> (and (< (s.arr s) %s) (>= (s.off s) 0) (>= (s.len s) 0) %s) (= %s %s)) :pattern (%s) :pattern (%s)))",
+						es, a0, mkOr(mkNot(mkEq("(s.arr s)", app("s.arr", d))), mkEq(app("s.cap", d), "0"), app("<=", "(+ (s.off s) (s.len s))", end)), i1, i0, i1, i0))
+				}
+			}
+			return tBool(frame), nil
 		case "contains":
 			// contains(s, v): v is an element of the slice s (in the current state, or the old one inside old(...))
 			args, err := trArgs()
@@ -955,7 +1013,8 @@ func (x *Exec) trCall(e *Expr, env *Env) (Term, error) {
 					// modifiesNone(s): no array of s's element heap that existed in the old state has been written
 					continue
 				}
-				conds = append(conds, mkNot(mkEq("r", app("s.arr", a.S))))
+				// a slice without capacity cannot be written through, whatever array it points into
+				conds = append(conds, mkOr(mkNot(mkEq("r", app("s.arr", a.S))), mkEq(app("s.cap", a.S), "0")))
 			}
 			h1, h0 := x.get(env.cur, hname).S, x.get(env.old, hname).S
 			if h1 == h0 {
@@ -966,7 +1025,12 @@ func (x *Exec) trCall(e *Expr, env *Env) (Term, error) {
 			}
 			// arrays allocated since the old state are new, not modified
 			conds = append(conds, app("<", "r", x.get(env.old, allocVar).S))
-			return tBool(fmt.Sprintf("(forall ((r Int)) (! (=> %s (= (select %s r) (select %s r))) :pattern ((select %s r))))", mkAnd(conds...), h1, h0, h1)), nil
+			frame := fmt.Sprintf("(forall ((r Int)) (! (=> %s (= (select %s r) (select %s r))) :pattern ((select %s r))))", mkAnd(conds...), h1, h0, h1)
+			if env.assumeSide && simpleConst(h1) && simpleConst(h0) {
+				// consequences of the array-level frame at the level of s[i] and contains(s, v), for either trigger
+				frame = mkAnd(frame, x.sliceFrame(hname, h0, h1, strings.ReplaceAll(mkAnd(conds...), " r ", " (s.arr s) ")))
+			}
+			return tBool(frame), nil
 		case "fresh":
 			// fresh(s): the slice's backing array (or the pointer's object) was allocated after the function was entered
 			args, err := trArgs()
